@@ -1,12 +1,14 @@
 package main
 
 import (
+	"encoding/json"
 	"fmt"
 	"sort"
 	"strconv"
 	"strings"
 
 	"github.com/drshriveer/gtools/set"
+	"gopkg.in/yaml.v3"
 	"verif/harness/internal/hx"
 )
 
@@ -17,6 +19,8 @@ type pt struct {
 
 // setOps runs protocol ops on a real set.Set[T]; elements are indices into a universe.
 type setOps interface {
+	execRT(codec, mode string, tgt []string) string
+	size() int
 	reset()
 	exec(op string, idx []int) string
 }
@@ -27,6 +31,27 @@ type typedSet[T comparable] struct {
 }
 
 func (t *typedSet[T]) reset() { t.s = nil }
+func (t *typedSet[T]) size() int { return len(t.uni) }
+
+func (t *typedSet[T]) execRT(codec, mode string, tgt []string) string {
+	var target set.Set[T]
+	switch {
+	case len(tgt) == 1 && tgt[0] == "nil":
+	case len(tgt) == 1 && tgt[0] == "empty":
+		target = set.Make[T]()
+	default:
+		idx := []int{}
+		for _, w := range tgt {
+			n, err := strconv.Atoi(w)
+			if err != nil || n < 0 || n >= len(t.uni) {
+				return "bad-op"
+			}
+			idx = append(idx, n)
+		}
+		target = set.Make(t.vals(idx)...)
+	}
+	return t.rt(codec, mode, target)
+}
 
 func (t *typedSet[T]) vals(idx []int) []T {
 	r := make([]T, len(idx))
@@ -43,6 +68,97 @@ func (t *typedSet[T]) indexOf(v T) int {
 		}
 	}
 	return -1
+}
+
+type holder[T comparable] struct {
+	S set.Set[T] `json:"s" yaml:"s"`
+	N int        `json:"n" yaml:"n"`
+}
+
+func shapeOf(v any) string {
+	switch x := v.(type) {
+	case nil:
+		return "null"
+	case []any:
+		return fmt.Sprintf("seq:%d", len(x))
+	}
+	return fmt.Sprintf("other:%T", v)
+}
+
+// rt: encode t.s with the codec (standalone or as a struct field), report the shape of the
+// encoding, decode into the target and report the target's members.
+func (t *typedSet[T]) rt(codec, mode string, target set.Set[T]) string {
+	var data []byte
+	var err error
+	var shape string
+	switch {
+	case codec == "json" && mode == "standalone":
+		data, err = json.Marshal(t.s)
+		if err != nil {
+			return "err"
+		}
+		var v any
+		if json.Unmarshal(data, &v) != nil {
+			return "err-shape"
+		}
+		shape = shapeOf(v)
+		err = json.Unmarshal(data, &target)
+	case codec == "json" && mode == "field":
+		data, err = json.Marshal(holder[T]{S: t.s, N: 3})
+		if err != nil {
+			return "err"
+		}
+		var v map[string]any
+		if json.Unmarshal(data, &v) != nil {
+			return "err-shape"
+		}
+		shape = shapeOf(v["s"])
+		h := holder[T]{S: target}
+		err = json.Unmarshal(data, &h)
+		target = h.S
+	case codec == "yaml" && mode == "standalone":
+		data, err = yaml.Marshal(t.s)
+		if err != nil {
+			return "err"
+		}
+		var v any
+		if yaml.Unmarshal(data, &v) != nil {
+			return "err-shape"
+		}
+		shape = shapeOf(v)
+		err = yaml.Unmarshal(data, &target)
+	case codec == "yaml" && mode == "field":
+		data, err = yaml.Marshal(holder[T]{S: t.s, N: 3})
+		if err != nil {
+			return "err"
+		}
+		var v map[string]any
+		if yaml.Unmarshal(data, &v) != nil {
+			return "err-shape"
+		}
+		shape = shapeOf(v["s"])
+		h := holder[T]{S: target}
+		err = yaml.Unmarshal(data, &h)
+		target = h.S
+	default:
+		return "bad-op"
+	}
+	if err != nil {
+		return "err"
+	}
+	if shape == "seq:0" {
+		shape = "null" // the property allows either for an empty set
+	}
+	ids := []int{}
+	for v := range target {
+		ids = append(ids, t.indexOf(v))
+	}
+	sort.Ints(ids)
+	p := make([]string, len(ids))
+	for i, k := range ids {
+		p[i] = strconv.Itoa(k)
+	}
+	return shape + " [" + strings.Join(p, " ") + "]"
 }
 
 func (t *typedSet[T]) exec(op string, idx []int) string {
@@ -100,6 +216,10 @@ func newSetImpl() *setImpl {
 		"int":    &typedSet[int]{uni: []int{0, -1, 7, 1 << 40, 3, 42}},
 		"string": &typedSet[string]{uni: []string{"", "a", "A", "héllo", "a b", "null"}},
 		"struct": &typedSet[pt]{uni: []pt{{0, ""}, {1, ""}, {0, "x"}, {1, "x"}, {-1, "y"}, {2, "z"}}},
+		"ystring": &typedSet[string]{uni: []string{"", "true", "null", "1", "- x", "a: b", "~", "héllo wörld", "0x1f", "no", "1e3", " lead", "trail ", "multi\nline", "\"q\"", "#c", "[a]", "{b}", "*x", "&y", "!t", "|", ">", "%", "@", "`", "'s'", "null ", "True", "FALSE", "1.0", ".5", "-", "?", ":", ",", "\t", "é", "日本", "\u0000z"}},
+		"float":   &typedSet[float64]{uni: []float64{0, 1, -1.5, 0.1, 1e21, 3.141592653589793, 1e-7, 123456789.125, -2, 5e-324, 1.7976931348623157e308, 100}},
+		"bool":    &typedSet[bool]{uni: []bool{false, true}},
+		"wint":    &typedSet[int64]{uni: func() []int64 { r := make([]int64, 60); for i := range r { r[i] = int64(i*i*i) - 5000 }; r[59] = 1<<63 - 1; r[58] = -1 << 63; return r }()},
 	}}
 }
 
@@ -118,10 +238,16 @@ func (s *setImpl) Exec(line string) string {
 	if len(ws) < 2 || ws[0] != "set" || s.cur == nil {
 		return "bad-op"
 	}
+	if ws[1] == "rt" {
+		if len(ws) < 5 {
+			return "bad-op"
+		}
+		return s.cur.execRT(ws[2], ws[3], ws[4:])
+	}
 	idx := []int{}
 	for _, w := range ws[2:] {
 		n, err := strconv.Atoi(w)
-		if err != nil || n < 0 || n >= 6 && ws[1] != "probe" {
+		if err != nil || n < 0 || n >= s.cur.size() && ws[1] != "probe" {
 			return "bad-op"
 		}
 		idx = append(idx, n)
@@ -216,6 +342,64 @@ func runC07(f *hx.Flags) {
 			tags = append(tags, "zero-arg-stream")
 		}
 		r.Add(hx.Case{Domain: domain, Nontrivial: mut && ask, Tags: tags, Lines: lines})
+	}
+	r.Finish()
+}
+
+func runC17(f *hx.Flags) {
+	impl := newSetImpl()
+	r := hx.NewRunner(f, "h-set", impl, "random sets (0-50 elements) of string incl. YAML-significant strings, int, float, bool, struct element types, encoded with encoding/json and yaml.v3 standalone and as a struct field, decoded into nil/empty/pre-filled targets; compared: shape of the encoding (null or sequence of |S| items) and members of the target afterwards. non-trivial: source set non-empty; distinct by request lines")
+	r.KeyOf = func(d *hx.Disagreement) string {
+		ws := strings.Fields(d.Request)
+		if len(ws) >= 4 && ws[1] == "rt" {
+			return "C17:" + ws[2] + ":" + ws[3]
+		}
+		return "C17:?"
+	}
+	if r.HandleReplay() {
+		return
+	}
+	r.RunCorpus()
+	n := r.N(6000)
+	if f.Tier == "thorough" {
+		n = r.N(200000)
+	}
+	kinds := []string{"int", "string", "struct", "ystring", "float", "bool", "wint"}
+	for i := 0; i < n; i++ {
+		kind := kinds[r.Rng.Intn(len(kinds))]
+		usz := impl.kind[kind].size()
+		pick := func(max int) string {
+			k := r.Rng.Intn(max + 1)
+			p := make([]string, k)
+			for j := range p {
+				p[j] = strconv.Itoa(r.Rng.Intn(usz))
+			}
+			return strings.Join(p, " ")
+		}
+		lines := []string{"case set " + kind}
+		src := ""
+		switch r.Rng.Intn(8) {
+		case 0:
+			lines = append(lines, "set nil")
+		case 1:
+			lines = append(lines, "set make")
+		default:
+			src = pick(50)
+			lines = append(lines, strings.TrimSpace("set make "+src))
+		}
+		for _, codec := range []string{"json", "yaml"} {
+			for _, mode := range []string{"standalone", "field"} {
+				tg := []string{"nil", "empty", pick(6), pick(20)}
+				for _, t := range tg {
+					if t == "" {
+						t = "empty"
+					}
+					lines = append(lines, "set rt "+codec+" "+mode+" "+t)
+				}
+			}
+		}
+		lines = append(lines, "set slice")
+		r.Add(hx.Case{Domain: true, Nontrivial: src != "", Tags: []string{"elem-" + kind}, Lines: lines})
 	}
 	r.Finish()
 }
